@@ -99,29 +99,33 @@ def judge(data, loader_check=False):
         import fickling
         from fickling.exception import UnsafeFileError
 
-        try:
-            fickling.load(io.BytesIO(data))
-        except UnsafeFileError as e:
-            if _listify(e.info) != _listify(td):
+        # every accepted-severity threshold below the verdict: the error must carry the report
+        for T in Severity:
+            if not (T < sev):
+                continue
+            try:
+                fickling.load(io.BytesIO(data), max_acceptable_severity=T)
+            except UnsafeFileError as e:
+                if _listify(e.info) != _listify(td):
+                    return (
+                        Failure(
+                            case,
+                            f"UnsafeFileError.info for {data!r} (threshold {T.name}) differs from "
+                            f"the report: {e.info!r} vs {td!r}",
+                        ),
+                        klass,
+                    )
+            except Exception as e:  # noqa: BLE001
                 return (
                     Failure(
                         case,
-                        f"UnsafeFileError.info for {data!r} differs from the report: "
-                        f"{e.info!r} vs {td!r}",
+                        f"checked loader on flagged {data!r} raised {type(e).__name__}: {e} instead "
+                        "of UnsafeFileError",
                     ),
                     klass,
                 )
-        except Exception as e:  # noqa: BLE001
-            return (
-                Failure(
-                    case,
-                    f"checked loader on flagged {data!r} raised {type(e).__name__}: {e} instead "
-                    "of UnsafeFileError",
-                ),
-                klass,
-            )
-        else:
-            return Failure(case, f"checked loader returned for flagged {data!r}"), klass
+            else:
+                return Failure(case, f"checked loader (threshold {T.name}) returned for {data!r} rated {sev.name}"), klass
         klass = "flagged+loader"
     return None, klass
 
